@@ -256,6 +256,113 @@ def run_module(res: Result, ctx: Ctx, mi: int, group, srcdir: Path, subsets: Opt
     del sys.modules[modname]
 
 
+SAME_SRC = '''
+def same(a, b=1):
+    return 1
+
+
+class C1:
+    def same(self, a, b=1):
+        return 1
+
+
+class C3:
+    @classmethod
+    def same(cls, a, b=1):
+        return 1
+
+
+class C4:
+    @staticmethod
+    def same(a, b=1):
+        return 1
+
+    class N2:
+        def same(self, a, b=1):
+            return 1
+
+
+class C5:
+    @property
+    def same(self):
+        return 1
+'''
+
+
+def special_stage(res: Result, ctx: Ctx, srcdir: Path) -> None:
+    """(1) one module whose functions all share one name but differ in kind, every order of the traces;
+    (2) traces of two modules interleaved in one build_module_stubs_from_traces call."""
+    from monkeytype.stubs import build_module_stubs_from_traces
+
+    K, P2 = ("K", None), ("K", "1")
+    pl = (K, P2)
+    metas = [
+        {"idx": 0, "path": (), "name": "same", "kind": "function", "params": pl, "names": ["a", "b"], "recv": ""},
+        {"idx": 1, "path": ("C1",), "name": "same", "kind": "instance", "params": pl, "names": ["a", "b"], "recv": "self"},
+        {"idx": 2, "path": ("C3",), "name": "same", "kind": "classmethod", "params": pl, "names": ["a", "b"], "recv": "cls"},
+        {"idx": 3, "path": ("C4",), "name": "same", "kind": "staticmethod", "params": pl, "names": ["a", "b"], "recv": ""},
+        {"idx": 4, "path": ("C4", "N2"), "name": "same", "kind": "instance", "params": pl, "names": ["a", "b"], "recv": "self"},
+        {"idx": 5, "path": ("C5",), "name": "same", "kind": "property", "params": (), "names": [], "recv": "self"},
+    ]
+    modname = f"c12same_{ctx.seed}"
+    (srcdir / f"{modname}.py").write_text(SAME_SRC)
+    importlib.invalidate_caches()
+    mod = importlib.import_module(modname)
+    for order in itertools.permutations(range(6)):
+        res.states += 1
+        case = {"module_index": -1, "subset": list(order), "tier": ctx.tier}
+        try:
+            tr = traces_for(mod, metas, tuple(order))
+            text = build_module_stubs_from_traces(tr, 0)[modname].render()
+        except Exception as e:  # noqa: BLE001
+            res.violate(Violation(ID, "exception", type(e).__name__, case, f"same-named functions: raised {e!r}"))
+            continue
+        res.validated += 1
+        res.evaluations += 1
+        res.transitions += 6
+        for kind, sig, msg in check_subset(text, mod, metas, tuple(order))[:2]:
+            res.violate(Violation(ID, kind, "same-named:" + sig, case, f"functions all named `same`, trace order {order}: " + msg))
+    res.oblige("special:same-named-functions", True)
+    # two modules interleaved
+    gs = groups(ctx.tier)
+    for a_i, b_i in ((0, 1), (2, 5)):
+        srcs = []
+        mods = []
+        for mi in (a_i, b_i):
+            src, ms = gen_module(gs[mi], mi * 10)
+            mn = f"c12il_{ctx.seed}_{mi}"
+            (srcdir / f"{mn}.py").write_text(src)
+            importlib.invalidate_caches()
+            mods.append((importlib.import_module(mn), ms, mn))
+        for pattern in ("abab", "aabb", "abba", "baab"):
+            ta = traces_for(mods[0][0], mods[0][1], tuple(range(len(mods[0][1]))))
+            tb = traces_for(mods[1][0], mods[1][1], tuple(range(len(mods[1][1]))))
+            seq = []
+            ia = ib = 0
+            while ia < len(ta) or ib < len(tb):
+                for ch in pattern:
+                    if ch == "a" and ia < len(ta):
+                        seq.append(ta[ia]); ia += 1
+                    elif ch == "b" and ib < len(tb):
+                        seq.append(tb[ib]); ib += 1
+            res.states += 1
+            case = {"module_index": -2, "subset": [a_i, b_i], "tier": ctx.tier}
+            try:
+                stubs = build_module_stubs_from_traces(seq, 0)
+            except Exception as e:  # noqa: BLE001
+                res.violate(Violation(ID, "exception", type(e).__name__, case, f"interleaved modules: raised {e!r}"))
+                continue
+            res.validated += 1
+            res.evaluations += 1
+            for (mod_, ms, mn) in mods:
+                text = stubs[mn].render() if mn in stubs else ""
+                for kind, sig, msg in check_subset(text, mod_, ms, tuple(range(len(ms))))[:2]:
+                    if sig == "method-of-nested-class":
+                        sig = "nested"
+                    res.violate(Violation(ID, kind, "interleaved-modules:" + sig, case, f"traces of two modules interleaved ({pattern}): module {mn}: " + msg))
+    res.oblige("special:interleaved-modules", True)
+
+
 def groups(tier: str):
     sp = specs(tier)
     # stripe so that each module mixes kinds/depths: sort by a mixing key, then chunks of 5
@@ -280,10 +387,12 @@ def run(ctx: Ctx) -> Result:
         sys.path.insert(0, str(srcdir))
         for mi in range(si, len(gs), nshards):
             run_module(res, ctx, mi, gs[mi], srcdir)
+        if si == 0:
+            special_stage(res, ctx, srcdir)
         return res
 
     res = run_shards(ctx, shard, list(range(nshards)))
-    for o in ("saw:wrapped-signature", "saw:posonly-separator", "saw:kwonly-separator", "saw:async"):
+    for o in ("special:same-named-functions", "special:interleaved-modules", "saw:wrapped-signature", "saw:posonly-separator", "saw:kwonly-separator", "saw:async"):
         res.obligations.setdefault(o, False)
     res.bounds.update({"max_params": 4 if ctx.tier == "thorough" else "3 (+4 for function/instance)", "modules": len(gs), "functions_per_module": 5, "subsets": "all 31"})
     return res
@@ -296,5 +405,8 @@ def replay(case: Dict[str, Any], ctx: Ctx) -> List[Violation]:
     srcdir.mkdir(exist_ok=True)
     sys.path.insert(0, str(srcdir))
     ctx.tier = case["tier"]
+    if case["module_index"] < 0:
+        special_stage(res, ctx, srcdir)
+        return res.violations
     run_module(res, ctx, case["module_index"], gs[case["module_index"]], srcdir, [tuple(case["subset"])])
     return res.violations
